@@ -397,7 +397,12 @@ def make_runner(cfg):
 def explore_cfg(arg):
     cfg, bound, cap = arg
     from harness import l1
+    import gc
     l1._no_final_gc()
+    # Cyclic GC at an arbitrary allocation would run Connection.__del__ (a
+    # virtual close = a scheduling point) at a moment that is not a function
+    # of the choice sequence: collect only between executions.
+    gc.disable()
     run = make_runner(cfg)
     st = explore.Stats()
     found = {}
@@ -411,8 +416,7 @@ def explore_cfg(arg):
         p = stack.pop()
         x = run(p, None)
         explore._account(st, x, p)
-        if st.executions % 250 == 0:
-            import gc
+        if st.executions % 25 == 0:
             gc.collect()          # arena mmaps of finished executions
         if x.violation:
             st.violations.pop()
